@@ -302,3 +302,59 @@ func VC08CheckedEntry() {
 	vrt.Assert("no-hook-of-an-earlier-entry-runs", vCountEvents("history-hook:") == 0)
 	vrt.Cover("done")
 }
+
+func vHasBytes(b []byte, sub string) bool {
+	for i := 0; i+len(sub) <= len(b); i++ {
+		if string(b[i:i+len(sub)]) == sub {
+			return true
+		}
+	}
+	return false
+}
+
+// Caller annotations are values of the entry, whatever program counter they carry and whatever was logged
+// before with the same program counter (bridges and wrapping cores build callers of their own).
+//
+//verif: prop=C08 bounds="JSON or console ioCore with the short or the full caller encoder; 0..2 history entries on another core whose callers share the observed entry's program counter (or not) but name another file and line; then the observed entry (program counter zero, shared or fresh): its line names its own file:line and function, byte-identical to the line a second, history-free encoder configuration would give for the text parts"
+func VC08CallerHistory() {
+	cfg := vC08Cfg
+	fullPath := vrt.Choice("callerenc", 2) == 1
+	if fullPath {
+		cfg.EncodeCaller = FullCallerEncoder
+	}
+	console := vrt.Choice("enc", 2) == 1
+	mk := func() Encoder {
+		if !console {
+			return NewJSONEncoder(cfg)
+		}
+		return NewConsoleEncoder(cfg)
+	}
+	histSink, sink := &vBytesSink{}, &vBytesSink{}
+	hist := NewCore(mk(), histSink, DebugLevel)
+	core := NewCore(mk(), sink, DebugLevel)
+	pcs := []uintptr{0, 0x4321, 0x8765}
+	obsPC := pcs[vrt.Choice("pc", 3)]
+	nh := vrt.Choice("nhist", 3)
+	for i := 0; i < nh; i++ {
+		hpc := pcs[vrt.Choice(fmt.Sprintf("hpc%d", i), 3)]
+		e := Entry{Level: InfoLevel, Message: "h", Time: time.Unix(3, 4),
+			Caller: EntryCaller{Defined: true, PC: hpc, File: "/a/b/c.go", Line: 7 + i, Function: "pkg.hist"}}
+		_ = hist.Write(e, nil)
+	}
+	ent := Entry{Level: WarnLevel, Message: "m", Time: time.Unix(1, 2),
+		Caller: EntryCaller{Defined: true, PC: obsPC, File: "/x/y.go", Line: 3, Function: "p.f"}}
+	_ = core.Write(ent, nil)
+	if len(sink.writes) != 1 {
+		vrt.Fail("exactly-one-sink-write-per-call")
+		return
+	}
+	line := sink.writes[0]
+	vrt.Observe("line", line)
+	want := "x/y.go:3"
+	if fullPath {
+		want = "/x/y.go:3"
+	}
+	vrt.Assert("caller-is-the-entrys-own-whatever-was-logged-before", vHasBytes(line, want) && !vHasBytes(line, "b/c.go"))
+	vrt.Assert("function-is-the-entrys-own", vHasBytes(line, "p.f") && !vHasBytes(line, "pkg.hist"))
+	vrt.Cover("done")
+}
